@@ -55,6 +55,7 @@ def gen_case(rng, tier, index):
             "fp_sel": rng.choice([1, 2, 3, "s", "s+1", "s+2", "s+5", "2s+1",
                                   "s-1"]),
             "m": rng.choice([2, 2, 3, 4]), "r": rng.randrange(0, 5),
+            "batch": rng.choice([0, 2, 3, 4, 32]),
             "seed": rng.getrandbits(32), "sched_seed": rng.getrandbits(48),
             "policy": rng.choice(S.POLICIES),
             "policy_param": rng.randrange(0, 4)}
@@ -88,7 +89,10 @@ def run_case(case):
               "s+5": nshards + 5, "2s+1": 2 * nshards + 1,
               "s-1": max(1, nshards - 1)}.get(case["fp_sel"], case["fp_sel"])
         fp = max(1, fp)
-        opts = {"repeat": True, "shuffle": sh, "fp": fp}
+        opts = {"repeat": True, "shuffle": sh, "fp": fp,
+                "batch": case.get("batch", 0)}
+        if iface == "tfdata" and opts["batch"] and N % opts["batch"]:
+            probes["tfdata_batch_not_dividing_split"] += 1
         want = case["m"] * N + case["r"]
         random.seed(case["seed"])
         ds = env.open()
